@@ -169,8 +169,15 @@ func (f *DB) Reload(path string, validationKey []byte, reloadTimeout time.Durati
 	var destroyNewDbi bool
 	var err error
 
+	// the reload goroutine uses f.dbi and may outlive this call (timeout): hold a
+	// reference so that f.dbi cannot be closed under it
+	f.l.Lock()
+	f.refCount++
+	f.l.Unlock()
+
 	// reload goroutine
 	go func() {
+		defer f.unref()
 		verifhook.Enter("dbreload.worker")
 		defer verifhook.Exit()
 		var localDBI DBI
@@ -234,6 +241,18 @@ func (f *DB) Reload(path string, validationKey []byte, reloadTimeout time.Durati
 	}
 
 	return f, nil
+}
+
+// unref drops a reference to the DB and closes it if it was the last one of a
+// destroyed DB
+func (f *DB) unref() {
+	f.l.Lock()
+	defer f.l.Unlock()
+	f.refCount--
+	if f.destroyable && f.refCount == 0 {
+		glog.Infof("refcount == 0 && destroyable: Closing DB")
+		f.dbi.Close()
+	}
 }
 
 // validateDbKeyOrDestroy validates DB with the validationKey, and destroys the
